@@ -241,6 +241,22 @@ def gen_inputs(ctx):
         for p in (letters if not q else rng.sample(letters, 4)):
             out.append(("SegwitDec", {"hrp": T(hrp), "addr": T(s[:p] + s[p].upper() + s[p + 1:])},
                         ("mixedcase", p <= sep)))
+        # case PATTERNS over whole regions (a decoder that looks at the regions one by one, at the first or last letter,
+        # or at a sample, sees one case in each): prefix / data part / checksum / halves / alternate letters / all but
+        # one letter, each in the spelling and in its mirror image
+        U = s.upper()
+        mid = (sep + 1 + len(s)) // 2
+        pats = {"hrp-upper": U[:sep] + s[sep:], "data-upper": s[:sep + 1] + U[sep + 1:], "hrp+version-upper": U[:sep + 2] + s[sep + 2:],
+                "checksum-upper": s[:-6] + U[-6:], "checksum-lower": U[:-6] + s[-6:], "first-half-upper": U[:mid] + s[mid:],
+                "second-half-upper": s[:mid] + U[mid:], "alternate": "".join(c.upper() if j % 2 else c for j, c in enumerate(s)),
+                "payload-upper": s[:sep + 2] + U[sep + 2:-6] + s[-6:]}
+        if letters:
+            pats["all-but-first-letter-upper"] = U[:letters[0]] + s[letters[0]] + U[letters[0] + 1:]
+            pats["all-but-last-letter-upper"] = U[:letters[-1]] + s[letters[-1]] + U[letters[-1] + 1:]
+        for nm, t in sorted(pats.items()):
+            if t != s and t != U:
+                for h_ in (hrp, hrp.upper()):
+                    out.append(("SegwitDec", {"hrp": T(h_), "addr": T(t), "orig": T(s)}, ("mixedcase-pattern", nm, h_ == hrp)))
         for p in (range(sep + 1, len(s) - 1) if not q else rng.sample(range(sep + 1, len(s) - 1), 4)):
             if s[p] != s[p + 1]:
                 out.append(("SegwitDec", {"hrp": T(hrp), "addr": T(s[:p] + s[p + 1] + s[p] + s[p + 2:]), "orig": T(s)},
